@@ -99,12 +99,51 @@ def wsgi_str(text: str) -> str:
     return text.encode('utf8', 'surrogateescape').decode('latin1')
 
 
+# What different servers put into environ beside the PEP 3333 keys.  All of it is inert for a correct application:
+# the request is defined by the standard keys.  'http10' is a client without a Host header (not in AUTO: it changes
+# the redirect code the framework chooses).
+FLAVOURS = ('wsgiref', 'gunicorn', 'uwsgi', 'mod_wsgi', 'http10')
+AUTO = ('wsgiref', 'gunicorn', 'uwsgi', 'mod_wsgi')
+_auto = [True]
+flavour_counts = {}
+
+
+def auto_flavours(on):
+    _auto[0] = bool(on)
+
+
+def apply_flavour(env, flavour):
+    from urllib.parse import quote
+    uri = quote((env.get('SCRIPT_NAME', '') + env.get('PATH_INFO', '')).encode('latin1'), safe="/;=,@+$!*'()~:") or '/'
+    if env.get('QUERY_STRING'):
+        uri += '?' + env['QUERY_STRING']
+    if flavour == 'gunicorn':
+        env.update({'wsgi.input_terminated': True, 'RAW_URI': uri, 'REMOTE_ADDR': '10.0.0.7', 'REMOTE_PORT': '51234', 'gunicorn.socket': object(),
+                    'SERVER_SOFTWARE': 'gunicorn/21.2.0'})
+    elif flavour == 'uwsgi':
+        env.update({'REQUEST_URI': uri, 'uwsgi.version': b'2.0.21', 'uwsgi.node': b'node1', 'DOCUMENT_ROOT': '/var/www', 'REMOTE_ADDR': '10.0.0.7',
+                    'uwsgi.core': 0})
+    elif flavour == 'mod_wsgi':
+        env.update({'REQUEST_URI': uri, 'mod_wsgi.version': (4, 9, 4), 'wsgi.input_terminated': True, 'SCRIPT_FILENAME': '/srv/app.wsgi',
+                    'REQUEST_SCHEME': env['wsgi.url_scheme'], 'CONTEXT_PREFIX': '', 'mod_wsgi.script_name': env.get('SCRIPT_NAME', ''),
+                    'mod_wsgi.path_info': env.get('PATH_INFO', ''), 'GATEWAY_INTERFACE': 'CGI/1.1', 'apache.version': (2, 4, 57)})
+    elif flavour == 'http10':
+        host = env.pop('HTTP_HOST', None)
+        env['SERVER_PROTOCOL'] = 'HTTP/1.0'
+        if host:
+            name, _, port = host.partition(':')
+            env['SERVER_NAME'] = name
+            env['SERVER_PORT'] = port or ('443' if env['wsgi.url_scheme'] == 'https' else '80')
+    flavour_counts[flavour] = flavour_counts.get(flavour, 0) + 1
+    return env
+
+
 def make_environ(method='GET', path='/', qs='', headers=None, body=None, stream=None,
                  content_length='auto', content_type=None, chunked=False, raw_path=None,
-                 extra=None, file_wrapper=False):
+                 extra=None, file_wrapper=False, flavour=None, script_name=''):
     env = {
         'REQUEST_METHOD': method,
-        'SCRIPT_NAME': '',
+        'SCRIPT_NAME': script_name,
         'PATH_INFO': raw_path if raw_path is not None else wsgi_str(path),
         'QUERY_STRING': qs,
         'SERVER_NAME': 'testserver',
@@ -133,6 +172,13 @@ def make_environ(method='GET', path='/', qs='', headers=None, body=None, stream=
         env['HTTP_' + k.upper().replace('-', '_')] = v
     if file_wrapper:
         env['wsgi.file_wrapper'] = FileWrapper
+    if flavour is None and _auto[0]:
+        # a function of the request itself, so that a replayed witness meets the same server
+        h = len(env['PATH_INFO']) + len(qs) + len(method) + len(headers or ()) + (len(body) if body else 0)
+        h += len(getattr(stream, 'data', b'')) + len(env.get('CONTENT_LENGTH', '')) * 3 + len(content_type or '') + sum(len(str(v)) for v in (headers or {}).values())
+        flavour = AUTO[h % len(AUTO)]
+    if flavour:
+        apply_flavour(env, flavour)
     if extra:
         env.update(extra)
     return env
